@@ -18,7 +18,8 @@ from ..model import (walk, dotted, call_name, kwarg, unparse, short, UNKNOWN,
 from ..cfg import cfg_of
 from ..flow import Deps, guards, loop_slice
 from .. import idioms as I
-from .c15 import StateEval, Uneval
+from .c15 import StateEval, Uneval, single_assign
+from .c12 import defs_reaching
 
 TMGR  = ('task_manager.py', 'TaskManager')
 PILOT = ('pilot.py', 'Pilot')
@@ -170,7 +171,7 @@ def _by_domain(prog, f, roles, atom, pol, final):
             continue
         table = prog.const('states.py', tab)
         domain = [s for s in table if s is not None]
-        ev = StateEval(prog, f, pred)
+        ev = StateEval(prog, f, pred, resolve=lambda n: single_assign(f, n))
         try:
             allowed = {s for s in domain if ev.holds(atom, s) == pol}
         except Uneval:
@@ -293,17 +294,13 @@ def r13_1(prog, rep, f, rid='R13.1'):
         pvar = ploop.ast.target.id
         tvars = {tvar}
         atoms = []
-        # a filtering comprehension as the iterable counts as guards
-        it = tloop.ast.iter
-        if isinstance(it, (ast.ListComp, ast.GeneratorExp)) and \
-                len(it.generators) == 1 and \
-                isinstance(it.generators[0].target, ast.Name) and \
-                isinstance(it.elt, ast.Name) and \
-                it.elt.id == it.generators[0].target.id:
-            tvars.add(it.elt.id)
-            for cond in it.generators[0].ifs:
-                for c, pol in _conj(cond, True):
-                    atoms.append((c, pol))
+        # a filtering iterable (comprehension, filter(pred, ..), possibly
+        # through a local name) counts as guards of the loop element
+        more, conds = iterable_guards(f, g, tloop.ast.iter, tloop.id)
+        tvars |= more
+        for cond in conds:
+            for c, pol in _conj(cond, True):
+                atoms.append((c, pol))
         start = loop_slice(g, ploop.id)[0]
         for tid, lab in guards(g, node.id, start=start):
             atoms.append((g.nodes[tid].ast, lab == 'T'))
@@ -398,6 +395,102 @@ def r13_1(prog, rep, f, rid='R13.1'):
                   history='pilot p1 ends: task.exception_detail of its tasks '
                   'does not mention p1')
     return len(sites)
+
+
+def iterable_guards(f, g, it, at, depth=0):
+    """(names of the element inside the conditions, [conditions every element
+    delivered by the iterable satisfies])"""
+    names, conds = set(), []
+    if depth > 4:
+        return names, conds
+    if isinstance(it, ast.Name):
+        defs, undef = defs_reaching(g, it.id, at)
+        if not undef and len(defs) == 1 and defs[0].kind == 'stmt' and \
+                isinstance(defs[0].ast, ast.Assign) and \
+                len(defs[0].ast.targets) == 1 and \
+                isinstance(defs[0].ast.targets[0], ast.Name):
+            # the list must not be extended behind the filter
+            for n in walk(f.node):
+                if isinstance(n, ast.Call) and \
+                        isinstance(n.func, ast.Attribute) and \
+                        n.func.attr in ('append', 'extend', 'insert') and \
+                        isinstance(n.func.value, ast.Name) and \
+                        n.func.value.id == it.id:
+                    return names, conds
+            return iterable_guards(f, g, defs[0].ast.value, defs[0].id,
+                                   depth + 1)
+        return names, conds
+    if isinstance(it, (ast.ListComp, ast.GeneratorExp, ast.SetComp)) and \
+            len(it.generators) == 1 and \
+            isinstance(it.generators[0].target, ast.Name) and \
+            isinstance(it.elt, ast.Name) and \
+            it.elt.id == it.generators[0].target.id:
+        names.add(it.elt.id)
+        conds += list(it.generators[0].ifs)
+        n2, c2 = iterable_guards(f, g, it.generators[0].iter, at, depth + 1)
+        # conditions of an inner filter speak about their own element name:
+        # rename it to ours
+        for c in c2:
+            conds.append(_rename(c, n2, it.elt.id))
+        return names, conds
+    if isinstance(it, ast.Call) and dotted(it.func) in ('list', 'tuple',
+                                                        'sorted', 'iter') \
+            and len(it.args) == 1:
+        return iterable_guards(f, g, it.args[0], at, depth + 1)
+    if isinstance(it, ast.Call) and dotted(it.func) == 'filter' and \
+            len(it.args) == 2:
+        pred = it.args[0]
+        body, params, defaults = None, [], {}
+        if isinstance(pred, ast.Lambda):
+            body, a = pred.body, pred.args
+        elif isinstance(pred, ast.Name):
+            fn = None
+            h = f
+            while h is not None and fn is None:
+                fn = h.nested.get(pred.id)
+                h = h.parent
+            a = fn.node.args if fn is not None else None
+            if fn is not None:
+                stmts = [x for x in fn.node.body
+                         if not (isinstance(x, ast.Expr) and
+                                 isinstance(x.value, ast.Constant))]
+                if len(stmts) == 1 and isinstance(stmts[0], ast.Return) and \
+                        stmts[0].value is not None:
+                    body = stmts[0].value
+        if body is None:
+            return names, conds
+        params = [x.arg for x in a.args]
+        if not params:
+            return names, conds
+        nd = len(a.defaults)
+        for prm, dv in zip(a.args[len(a.args) - nd:], a.defaults):
+            defaults[prm.arg] = dv
+        # parameters bound by a default (`_pid=pid`) stand for that value
+        body = _substitute(body, {k: v for k, v in defaults.items()
+                                  if k != params[0]})
+        names.add(params[0])
+        conds.append(body)
+        n2, c2 = iterable_guards(f, g, it.args[1], at, depth + 1)
+        for c in c2:
+            conds.append(_rename(c, n2, params[0]))
+        return names, conds
+    return names, conds
+
+
+def _substitute(expr, mapping):
+    import copy
+
+    class T(ast.NodeTransformer):
+        def visit_Name(self, n):
+            if isinstance(n.ctx, ast.Load) and n.id in mapping:
+                return copy.deepcopy(mapping[n.id])
+            return n
+    return T().visit(copy.deepcopy(expr))
+
+
+def _rename(expr, olds, new):
+    return _substitute(expr, {o: ast.Name(id=new, ctx=ast.Load())
+                              for o in olds if o != new})
 
 
 def _conj(expr, pol):
@@ -666,6 +759,24 @@ MUTATIONS = [
          rules=('R13.1',), edits=[
         (_TM, "            if state in rps.FINAL:\n\n                self._log.debug('pilot %s is final', pid)",
               "            if rps._pilot_state_value(state) >= \\\n               rps._pilot_state_value(rps.PMGR_ACTIVE):\n\n                self._log.debug('pilot %s is final', pid)")]),
+    dict(name='R13.1 filtering comprehension bound to a local lacks the binding test',
+         rules=('R13.1',), edits=[
+        (_TM, "                tasks = list()\n" + _HEAD + _CMT + _BIND + _NFIN,
+              "                orphans = [task for task in self._tasks.values()\n"
+              "                                if task.state not in rps.FINAL]\n\n"
+              "                tasks  = list()\n"
+              "                for task in orphans:\n\n")]),
+    dict(name='R13.1 local predicate for filter() tests the binding with !=',
+         rules=('R13.1',), edits=[
+        (_TM, "                tasks = list()\n" + _HEAD + _CMT + _BIND + _NFIN,
+              "                def _is_orphan(task, _pid=pid):\n"
+              "                    return task.pilot != _pid and task.state not in rps.FINAL\n\n"
+              "                tasks = list()\n"
+              "                for task in filter(_is_orphan, self._tasks.values()):\n\n")]),
+    dict(name='R13.1 merged guard joined with `and` instead of `or`',
+         rules=('R13.1',), edits=[
+        (_TM, _BIND + _NFIN,
+              "                    if task.pilot != pid and task.state in rps.FINAL:\n                        continue\n\n")]),
 ]
 
 SILENT = [
@@ -704,4 +815,36 @@ SILENT = [
     dict(name='dict test written as early continue for dicts', edits=[
         (_TM, "                if isinstance(pilot, dict):\n                    pilot_dict = pilot\n\n                else:\n",
               "                if isinstance(pilot, dict):\n                    pilot_dict = pilot\n\n                if not isinstance(pilot, dict):\n")]),
+    dict(name='corpus r2: guards as a comprehension bound to a local, plain loop', edits=[
+        (_TM, "                tasks = list()\n" + _HEAD + _CMT + _BIND + _NFIN,
+              "                orphans = [task for task in self._tasks.values()\n"
+              "                                if  task.pilot == pid\n"
+              "                                and task.state not in rps.FINAL]\n\n"
+              "                detail = 'pilot %s is final' % pid\n"
+              "                tasks  = list()\n"
+              "                for task in orphans:\n\n"),
+        (_TM, "'exception_detail': 'pilot %s is final' % pid,", "'exception_detail': detail,")]),
+    dict(name='corpus r3: merged `or` guard, FINAL cached in a local, dict inline', edits=[
+        (_TM, "        for pilot in pilots:\n\n            pid   = pilot.uid\n            state = pilot.state\n\n            if state in rps.FINAL:\n",
+              "        final = rps.FINAL\n        known = self._tasks\n\n        for pilot in pilots:\n\n            pid    = pilot.uid\n            pstate = pilot.state\n\n            if pstate in final:\n"),
+        (_TM, _GUARDED,
+              "                for task in known.values():\n\n"
+              "                    if task.pilot != pid or task.state in final:\n"
+              "                        continue\n\n"
+              "                    task._update({'uid'             : task.uid,\n"
+              "                                  'exception'       : 'RuntimeError(\"pilot died\")',\n"
+              "                                  'exception_detail': 'pilot %s is final' % pid,\n"
+              "                                  'state'           : rps.FAILED})\n"
+              "                    tasks.append(task.as_dict())\n")]),
+    dict(name='corpus r4: guards as a local predicate used through filter()', edits=[
+        (_TM, "                tasks = list()\n" + _HEAD + _CMT + _BIND + _NFIN,
+              "                def _is_orphan(task, _pid=pid):\n"
+              "                    return task.pilot == _pid and task.state not in rps.FINAL\n\n"
+              "                tasks = list()\n"
+              "                for task in filter(_is_orphan, self._tasks.values()):\n\n")]),
+    dict(name='guards as a lambda passed to filter()', edits=[
+        (_TM, _HEAD + _CMT + _BIND + _NFIN,
+              "                for task in filter(lambda t: t.pilot == pid and\n"
+              "                                   not t.state in rps.FINAL,\n"
+              "                                   self._tasks.values()):\n\n")]),
 ]
